@@ -89,10 +89,8 @@ def validate(
             """ Values are passed by position in the order of the signature, not in the order of their arrival. """
 
             params = inspect.signature(func).parameters
-            has_var_keyword = any(p.kind == p.VAR_KEYWORD for p in params.values())
 
-            if any(p.kind == p.VAR_POSITIONAL for p in params.values()) \
-                    or (not has_var_keyword and any(k not in params for k in result)):
+            if any(p.kind == p.VAR_POSITIONAL for p in params.values()):
                 return list(result.values()), {}
 
             positional = []
